@@ -62,6 +62,7 @@ class Machine:
         self.trace = []
         self.consts_read = []
         self.generics = {}      # const generic parameter name -> concrete value (one instantiation per evaluation)
+        self.hooks = []         # (compiled regex, handler(machine, fn, call, args) -> value): calls kept opaque and recorded
 
     # ---- memory
     def load(self, ptr, nbytes):
@@ -464,6 +465,19 @@ class Machine:
         short = nm.split("::")[-1]
         imm = [int(x) for x in (c.ga or []) if isinstance(x, str) and re.match(r"^-?\d+$", x)]
         B = self.B
+        for rx_, h_ in self.hooks:
+            if rx_.search(nm):
+                return h_(self, fn, c, a)
+        if nm in ("core::cmp::min", "core::cmp::max") and all(isinstance(x, int) and not isinstance(x, bool) for x in a[:2]):
+            return min(a[0], a[1]) if nm.endswith("min") else max(a[0], a[1])
+        if re.search(r"ChunksExact(::)?<'\w+, T>(>)?::remainder$", nm):
+            st_ = a[0]
+            if isinstance(st_, tuple) and st_ and st_[0] == "lref":
+                st_ = st_[1][st_[2]]
+            if isinstance(st_, dict) and "_chunks" in st_:
+                cont, lo, hi, n, exact = st_["_chunks"]
+                k_ = (hi - lo) // n          # full chunks not yet yielded: the remainder is what no chunk will ever cover
+                return ("aslice", cont, lo + k_ * n, hi)
         if c.local and self.P.fn_opt(nm) is not None and not nm.startswith("core::") and not re.match(r"^cryptoutil::(read|write)_u(32|64)v_(le|be)$", nm):
             return self.call_fn(self.P.fn(nm), a)
         if re.search(r"slice::<impl \[T\]>::get_unchecked(_mut)?$", nm) or re.search(r"array::<impl \[T; N\]>::get_unchecked(_mut)?$", nm):
@@ -795,6 +809,8 @@ class Machine:
             return {0: B.sub(x, y), 1: B.pred("borrow", x, y)}
         if re.search(r"(slice::<impl \[T\]>|array::<impl \[T; N\]>)::iter(_mut)?$", nm):
             return self.slice_iter(a[0])
+        if nm.endswith("IntoIterator>::into_iter") and isinstance(a[0], tuple) and a[0] and a[0][0] == "lref" and isinstance(a[0][1].get(a[0][2]) if isinstance(a[0][1], dict) else None, dict) and ("_it" in a[0][1][a[0][2]] or "_chunks" in a[0][1][a[0][2]]):
+            return a[0]
         if nm.endswith("IntoIterator>::into_iter") and not (isinstance(a[0], dict) and ("_it" in a[0] or "_chunks" in a[0] or set(a[0].keys()) == {0, 1})):
             # `for x in &array` / `for x in slice`
             try:
@@ -845,6 +861,8 @@ class Machine:
                     acc = self.call_closure(a[2], [acc, v])
         if re.search(r" as core::iter::(?:traits::iterator::)?Iterator>::next$", nm) and isinstance(a[0], tuple) and a[0] and a[0][0] == "lref":
             st_ = a[0][1][a[0][2]]
+            while isinstance(st_, tuple) and st_ and st_[0] == "lref":     # `for x in &mut iter`: a reference to the iterator
+                st_ = st_[1][st_[2]]
             if isinstance(st_, dict) and ("_it" in st_ or "_chunks" in st_):
                 o, v = self.it_next(st_)
                 return ("opt", 1, {0: v}) if o else ("opt", 0, {})
@@ -867,7 +885,7 @@ class Machine:
     # ---- iterators (concrete control: every iterator the analysed code builds has a concrete length)
     def it_of(self, x):
         """iterator state for a value an iterator adaptor / consumer receives"""
-        if isinstance(x, tuple) and x and x[0] == "lref":
+        while isinstance(x, tuple) and x and x[0] == "lref":
             x = x[1][x[2]]
         if isinstance(x, dict) and "_it" in x:
             return x
